@@ -30,13 +30,17 @@ type Ref struct {
 	Why       string    // reason for Err / Skip
 	Val       cty.Value // expected result when !Err && !Skip
 	OrderFree bool      // the order of the result's elements is not asserted (a set whose members have no documented order was traversed)
+	Clauses   []string  // reference clauses that decided this case (counted in the evidence as clause:<fn>:<name>)
 }
 
-func bad(why string) Ref    { return Ref{Err: true, Why: why} }
-func skip(why string) Ref   { return Ref{Skip: true, Why: why} }
-func good(v cty.Value) Ref  { return Ref{Val: v} }
-func boolRef(b bool) Ref    { return Ref{Val: cty.BoolVal(b)} }
-func (r Ref) free() Ref     { r.OrderFree = true; return r }
+// cl records which clauses of the reference decided the case.
+func (r Ref) cl(names ...string) Ref { r.Clauses = append(r.Clauses, names...); return r }
+
+func bad(why string) Ref   { return Ref{Err: true, Why: why} }
+func skip(why string) Ref  { return Ref{Skip: true, Why: why} }
+func good(v cty.Value) Ref { return Ref{Val: v} }
+func boolRef(b bool) Ref   { return Ref{Val: cty.BoolVal(b)} }
+func (r Ref) free() Ref    { r.OrderFree = true; return r }
 func (r Ref) freeIf(b bool) Ref {
 	if b {
 		r.OrderFree = true
@@ -207,12 +211,12 @@ func refLength(a []cty.Value) Ref {
 	v := a[0]
 	switch kindOf(v.Type()) {
 	case "list", "set":
-		return good(cty.NumberIntVal(int64(len(v.AsValueSlice()))))
+		return good(cty.NumberIntVal(int64(len(v.AsValueSlice())))).cl(kindOf(v.Type()))
 	case "tuple":
-		return good(cty.NumberIntVal(int64(len(v.Type().TupleElementTypes()))))
+		return good(cty.NumberIntVal(int64(len(v.Type().TupleElementTypes())))).cl("tuple")
 	case "map":
 		_, m := entries(v)
-		return good(cty.NumberIntVal(int64(len(m))))
+		return good(cty.NumberIntVal(int64(len(m)))).cl("map")
 	}
 	return bad("not a list, map, set or tuple")
 }
@@ -249,7 +253,10 @@ func refHasIndex(a []cty.Value) Ref {
 	if why != "" {
 		return bad(why)
 	}
-	return boolRef(has)
+	if has {
+		return boolRef(true).cl(kindOf(a[0].Type()) + "-key-present")
+	}
+	return boolRef(false).cl(kindOf(a[0].Type()) + "-key-absent")
 }
 
 func refIndex(a []cty.Value) Ref {
@@ -266,10 +273,10 @@ func refIndex(a []cty.Value) Ref {
 	coll, key := a[0], a[1]
 	if coll.Type().IsMapType() {
 		_, m := entries(coll)
-		return good(m[key.AsString()])
+		return good(m[key.AsString()]).cl("map")
 	}
 	i, _ := int64Of(key)
-	return good(coll.AsValueSlice()[i])
+	return good(coll.AsValueSlice()[i]).cl(kindOf(coll.Type()))
 }
 
 func refElement(a []cty.Value) Ref {
@@ -293,7 +300,14 @@ func refElement(a []cty.Value) Ref {
 	}
 	// mathematical (non-negative) modulo
 	j := new(big.Int).Mod(big.NewInt(i), big.NewInt(int64(len(es))))
-	return good(es[j.Int64()])
+	n := int64(len(es))
+	switch {
+	case i < 0:
+		return good(es[j.Int64()]).cl("negative-index-wraps")
+	case i >= n:
+		return good(es[j.Int64()]).cl("index-beyond-length-wraps")
+	}
+	return good(es[j.Int64()]).cl("index-in-range")
 }
 
 func refLookup(a []cty.Value) Ref {
@@ -316,15 +330,19 @@ func refLookup(a []cty.Value) Ref {
 		}
 		_, m := entries(a[0])
 		if v, ok := m[key]; ok {
-			return good(v)
+			return good(v).cl("map-key-present")
 		}
-		return good(d)
+		if !d.Type().Equals(a[2].Type()) {
+			return good(d).cl("map-default-converted")
+		}
+		return good(d).cl("map-default")
 	case "object":
+		// Appendix A only: neither the description nor a table-test row mentions object arguments
 		_, m := entries(a[0])
 		if v, ok := m[key]; ok {
-			return good(v)
+			return good(v).cl("object-attribute-present", "appendix-only")
 		}
-		return good(a[2])
+		return good(a[2]).cl("object-default-as-given", "appendix-only")
 	}
 	return bad("not a map or object")
 }
@@ -338,12 +356,23 @@ func refContains(a []cty.Value) Ref {
 	default:
 		return bad("not a list, tuple or set")
 	}
+	otherType := false
 	for _, e := range a[0].AsValueSlice() {
-		if e.Type().Equals(a[1].Type()) && mon.ModelEqual(e, a[1]) {
-			return boolRef(true)
+		if !e.Type().Equals(a[1].Type()) {
+			otherType = true
+			continue
+		}
+		if mon.ModelEqual(e, a[1]) {
+			return boolRef(true).cl("found")
 		}
 	}
-	return boolRef(false)
+	if len(a[0].AsValueSlice()) == 0 {
+		return boolRef(false).cl("empty-collection")
+	}
+	if otherType {
+		return boolRef(false).cl("elements-of-another-type-never-match")
+	}
+	return boolRef(false).cl("not-found")
 }
 
 func refKeys(a []cty.Value) Ref {
@@ -360,9 +389,9 @@ func refKeys(a []cty.Value) Ref {
 		out[i] = cty.StringVal(s)
 	}
 	if k == "map" {
-		return good(mkList(cty.String, out))
+		return good(mkList(cty.String, out)).cl("map-list-of-string")
 	}
-	return good(mkTuple(out))
+	return good(mkTuple(out)).cl("object-tuple-of-string")
 }
 
 func refValues(a []cty.Value) Ref {
@@ -379,9 +408,9 @@ func refValues(a []cty.Value) Ref {
 		out[i] = m[s]
 	}
 	if k == "map" {
-		return good(mkList(a[0].Type().ElementType(), out))
+		return good(mkList(a[0].Type().ElementType(), out)).cl("map-list")
 	}
-	return good(mkTuple(out))
+	return good(mkTuple(out)).cl("object-tuple")
 }
 
 func refMerge(a []cty.Value) Ref {
@@ -391,6 +420,9 @@ func refMerge(a []cty.Value) Ref {
 	allSameMap := true
 	for _, v := range a {
 		k := kindOf(v.Type())
+		if k == "dynamic" && v.IsNull() {
+			return skip("null of dynamic type: acceptance not documented")
+		}
 		if k != "map" && k != "object" {
 			return bad("argument is not a map or object")
 		}
@@ -399,22 +431,32 @@ func refMerge(a []cty.Value) Ref {
 		}
 	}
 	merged := map[string]cty.Value{}
+	var cls []string
+	nonNull := 0
 	for _, v := range a {
 		if v.IsNull() {
+			cls = append(cls, "null-argument-skipped")
 			continue // null arguments are skipped
 		}
+		nonNull++
 		_, m := entries(v)
 		for k, e := range m {
+			if _, dup := merged[k]; dup {
+				cls = append(cls, "later-wins")
+			}
 			merged[k] = e // later wins
 		}
 	}
+	if nonNull == 0 {
+		cls = append(cls, "all-null")
+	}
 	if allSameMap {
-		return good(mkMap(a[0].Type().ElementType(), merged))
+		return good(mkMap(a[0].Type().ElementType(), merged)).cl(cls...).cl("one-map-type-stays-map")
 	}
 	if len(merged) == 0 {
-		return good(cty.EmptyObjectVal)
+		return good(cty.EmptyObjectVal).cl(cls...).cl("object-result")
 	}
-	return good(cty.ObjectVal(merged))
+	return good(cty.ObjectVal(merged)).cl(cls...).cl("object-result")
 }
 
 func refConcat(a []cty.Value) Ref {
@@ -449,22 +491,40 @@ func refConcat(a []cty.Value) Ref {
 				}
 				out[i] = c
 			}
-			return good(mkList(ety, out))
+			same := true
+			for _, t := range etys {
+				if !t.Equals(ety) {
+					same = false
+				}
+			}
+			if same {
+				return good(mkList(ety, out)).cl("lists-of-one-type")
+			}
+			return good(mkList(ety, out)).cl("lists-unified")
 		}
+		return good(mkTuple(all)).cl("lists-not-unifiable-tuple")
 	}
-	return good(mkTuple(all))
+	return good(mkTuple(all)).cl("tuple-result")
 }
 
-func flattenInto(v cty.Value, out *[]cty.Value, ordered *bool) {
+func flattenInto(v cty.Value, out *[]cty.Value, ordered *bool, cls *[]string) {
 	es, ord := members(v)
 	if !ord {
 		*ordered = false
 	}
+	if v.Type().IsSetType() {
+		*cls = append(*cls, "set-traversed")
+	}
 	for _, e := range es {
 		k := kindOf(e.Type())
-		if !e.IsNull() && (k == "list" || k == "set" || k == "tuple") {
-			flattenInto(e, out, ordered)
+		seq := k == "list" || k == "set" || k == "tuple"
+		if !e.IsNull() && seq {
+			*cls = append(*cls, "nested-sequence-spliced")
+			flattenInto(e, out, ordered, cls)
 		} else {
+			if seq {
+				*cls = append(*cls, "null-sequence-kept-as-element")
+			}
 			*out = append(*out, e)
 		}
 	}
@@ -481,8 +541,9 @@ func refFlatten(a []cty.Value) Ref {
 	}
 	var out []cty.Value
 	ordered := true
-	flattenInto(a[0], &out, &ordered)
-	return good(mkTuple(out)).freeIf(!ordered)
+	var cls []string
+	flattenInto(a[0], &out, &ordered, &cls)
+	return good(mkTuple(out)).freeIf(!ordered).cl(cls...)
 }
 
 func refSlice(a []cty.Value) Ref {
@@ -506,10 +567,17 @@ func refSlice(a []cty.Value) Ref {
 		return bad("indices outside 0 <= start <= end <= len")
 	}
 	sub := append([]cty.Value(nil), es[s:e]...)
-	if k == "list" {
-		return good(mkList(a[0].Type().ElementType(), sub))
+	c := "proper-subslice"
+	switch {
+	case s == e:
+		c = "empty-slice"
+	case s == 0 && e == int64(len(es)):
+		c = "whole-sequence"
 	}
-	return good(mkTuple(sub))
+	if k == "list" {
+		return good(mkList(a[0].Type().ElementType(), sub)).cl(c)
+	}
+	return good(mkTuple(sub)).cl(c)
 }
 
 func refChunklist(a []cty.Value) Ref {
@@ -529,10 +597,10 @@ func refChunklist(a []cty.Value) Ref {
 	lty := a[0].Type()
 	es := a[0].AsValueSlice()
 	if len(es) == 0 {
-		return good(cty.ListValEmpty(lty))
+		return good(cty.ListValEmpty(lty)).cl("empty-list")
 	}
 	if n == 0 {
-		return good(cty.ListVal([]cty.Value{a[0]}))
+		return good(cty.ListVal([]cty.Value{a[0]})).cl("size-zero-one-chunk")
 	}
 	var chunks []cty.Value
 	for i := int64(0); i < int64(len(es)); i += n {
@@ -545,7 +613,10 @@ func refChunklist(a []cty.Value) Ref {
 			break
 		}
 	}
-	return good(cty.ListVal(chunks))
+	if int64(len(es))%n == 0 {
+		return good(cty.ListVal(chunks)).cl("all-chunks-full")
+	}
+	return good(cty.ListVal(chunks)).cl("last-chunk-shorter")
 }
 
 func refDistinct(a []cty.Value) Ref {
@@ -565,7 +636,10 @@ outer:
 		}
 		out = append(out, e)
 	}
-	return good(mkList(a[0].Type().ElementType(), out))
+	if len(out) != len(a[0].AsValueSlice()) {
+		return good(mkList(a[0].Type().ElementType(), out)).cl("duplicates-removed")
+	}
+	return good(mkList(a[0].Type().ElementType(), out)).cl("already-distinct")
 }
 
 func refCompact(a []cty.Value) Ref {
@@ -576,13 +650,20 @@ func refCompact(a []cty.Value) Ref {
 		return bad("not a list of string")
 	}
 	var out []cty.Value
+	var cls []string
 	for _, e := range a[0].AsValueSlice() {
-		if e.IsNull() || e.AsString() == "" {
+		if e.IsNull() {
+			// Appendix A only: the description speaks of empty strings; no table test exists for compact
+			cls = append(cls, "null-dropped", "appendix-only")
+			continue
+		}
+		if e.AsString() == "" {
+			cls = append(cls, "empty-string-dropped")
 			continue
 		}
 		out = append(out, e)
 	}
-	return good(mkList(cty.String, out))
+	return good(mkList(cty.String, out)).cl(cls...)
 }
 
 func refReverse(a []cty.Value) Ref {
@@ -599,9 +680,12 @@ func refReverse(a []cty.Value) Ref {
 		out[len(es)-1-i] = e
 	}
 	if k == "tuple" {
-		return good(mkTuple(out))
+		return good(mkTuple(out)).cl("tuple")
 	}
-	return good(mkList(a[0].Type().ElementType(), out)).freeIf(!ordered)
+	if k == "set" {
+		return good(mkList(a[0].Type().ElementType(), out)).freeIf(!ordered).cl("set-reversed-canonical-order")
+	}
+	return good(mkList(a[0].Type().ElementType(), out)).cl("list")
 }
 
 func refSort(a []cty.Value) Ref {
@@ -625,10 +709,17 @@ func refSort(a []cty.Value) Ref {
 		}
 	}
 	out := make([]cty.Value, len(ss))
+	moved := false
 	for i, s := range ss {
 		out[i] = cty.StringVal(string(s))
+		if !bytes.Equal(s, []byte(a[0].AsValueSlice()[i].AsString())) {
+			moved = true
+		}
 	}
-	return good(mkList(cty.String, out))
+	if moved {
+		return good(mkList(cty.String, out)).cl("order-changed")
+	}
+	return good(mkList(cty.String, out)).cl("already-sorted")
 }
 
 func refZipmap(a []cty.Value) Ref {
@@ -647,19 +738,24 @@ func refZipmap(a []cty.Value) Ref {
 		return bad("lengths differ")
 	}
 	m := map[string]cty.Value{}
+	var cls []string
 	for i, kv := range ks {
 		if kv.IsNull() {
 			return bad("null key")
 		}
+		if _, dup := m[kv.AsString()]; dup {
+			// Appendix A only: the description does not say which of several values a repeated key gets; no table-test row has one
+			cls = append(cls, "duplicate-key-last-wins", "appendix-only")
+		}
 		m[kv.AsString()] = vs[i] // last wins
 	}
 	if k == "list" {
-		return good(mkMap(a[1].Type().ElementType(), m))
+		return good(mkMap(a[1].Type().ElementType(), m)).cl(cls...).cl("map-result")
 	}
 	if len(m) == 0 {
-		return good(cty.EmptyObjectVal)
+		return good(cty.EmptyObjectVal).cl("object-result")
 	}
-	return good(cty.ObjectVal(m))
+	return good(cty.ObjectVal(m)).cl(cls...).cl("object-result")
 }
 
 func ratOf(v cty.Value) (*big.Rat, bool) {
@@ -733,7 +829,21 @@ func refRange(a []cty.Value) Ref {
 		x := new(big.Rat).Add(start, new(big.Rat).Mul(big.NewRat(int64(k), 1), step))
 		out[k] = numOfRat(x)
 	}
-	return good(mkList(cty.Number, out))
+	cl := "ascending"
+	switch {
+	case n == 0:
+		cl = "empty"
+	case step.Sign() < 0:
+		cl = "descending"
+	}
+	r := good(mkList(cty.Number, out)).cl(cl)
+	if !step.IsInt() || !start.IsInt() {
+		r = r.cl("fractional")
+	}
+	if n == 1024 {
+		r = r.cl("exactly-1024")
+	}
+	return r
 }
 
 func refCoalesce(a []cty.Value) Ref {
@@ -744,7 +854,7 @@ func refCoalesce(a []cty.Value) Ref {
 	if ty == cty.NilType {
 		return bad("argument types cannot be unified")
 	}
-	for _, v := range a {
+	for i, v := range a {
 		if v.IsNull() {
 			continue
 		}
@@ -752,7 +862,14 @@ func refCoalesce(a []cty.Value) Ref {
 		if err != nil {
 			return bad("first non-null argument not convertible to the unified type")
 		}
-		return good(c)
+		r := good(c)
+		if i > 0 {
+			r = r.cl("leading-nulls-skipped")
+		}
+		if !c.Type().Equals(v.Type()) {
+			r = r.cl("converted-to-unified-type")
+		}
+		return r
 	}
 	return bad("no non-null argument")
 }
@@ -763,17 +880,23 @@ func refCoalesceList(a []cty.Value) Ref {
 	}
 	for _, v := range a {
 		k := kindOf(v.Type())
+		if k == "dynamic" && v.IsNull() {
+			return skip("null of dynamic type: acceptance not documented")
+		}
 		if k != "list" && k != "tuple" {
 			return bad("argument is not a list or tuple")
 		}
 	}
+	var cls []string
 	for _, v := range a {
 		if v.IsNull() {
+			cls = append(cls, "null-skipped")
 			continue
 		}
 		if len(v.AsValueSlice()) > 0 {
-			return good(v)
+			return good(v).cl(cls...)
 		}
+		cls = append(cls, "empty-skipped")
 	}
 	return bad("no non-empty argument")
 }
@@ -819,8 +942,12 @@ func refSetProduct(a []cty.Value) Ref {
 		}
 		return mkSet(tty, es)
 	}
+	resKind := "set-result"
+	if allSeq {
+		resKind = "list-result-odometer-order"
+	}
 	if total == 0 {
-		return good(mk(nil))
+		return good(mk(nil)).cl("empty-argument", resKind)
 	}
 	if tty.HasDynamicTypes() {
 		return skip("element type has dynamic parts")
@@ -850,7 +977,7 @@ func refSetProduct(a []cty.Value) Ref {
 			break
 		}
 	}
-	return good(mk(out))
+	return good(mk(out)).cl(resKind)
 }
 
 // setArgs unifies the element types (empty set(dynamic) arguments do not
@@ -957,7 +1084,20 @@ func refSetOp(op string) func(a []cty.Value) Ref {
 			}
 			acc = next
 		}
-		return good(mkSet(ety, acc))
+		r = good(mkSet(ety, acc))
+		if len(a) > 2 {
+			r = r.cl("left-fold-of-more-than-two")
+		}
+		for _, v := range a {
+			if !v.Type().ElementType().Equals(ety) {
+				r = r.cl("element-types-unified")
+				break
+			}
+		}
+		if len(acc) == 0 {
+			r = r.cl("empty-result")
+		}
+		return r
 	}
 }
 
@@ -971,10 +1111,13 @@ func refSetHasElement(a []cty.Value) Ref {
 	if a[0].Type().ElementType().HasDynamicTypes() || a[1].Type().HasDynamicTypes() {
 		return skip("dynamic parts in the element type")
 	}
+	if !a[0].Type().ElementType().Equals(a[1].Type()) {
+		return boolRef(false).cl("element-of-another-type")
+	}
 	for _, e := range a[0].AsValueSlice() {
-		if e.Type().Equals(a[1].Type()) && mon.ModelEqual(e, a[1]) {
-			return boolRef(true)
+		if mon.ModelEqual(e, a[1]) {
+			return boolRef(true).cl("member")
 		}
 	}
-	return boolRef(false)
+	return boolRef(false).cl("not-a-member")
 }
